@@ -154,14 +154,44 @@ Print Assumptions C03_set_keeps_or_appends.
 
 (* ---- key-ordered iteration: Cache.iterkeys pages through the table 100 rows at a time by (key, raw) cursor;
         for every table size it lists every row exactly once in ORDER BY key, raw (reverse=True: the reverse),
-        and changes nothing.  Hypothesis beyond the invariant: no NULL key. ---- *)
-From DC Require Import DictExamples IterkeysFacts.
+        and changes nothing.  The table must hold no NULL key; since the repair of finding C03-F1 / C02-F2 (Disk.put
+        pickles a float NaN key instead of binding it as NULL) that is a clause of the invariant Sinv, so the
+        statement holds for every state satisfying Sinv and for every reachable state with no further hypothesis. ---- *)
+From DC Require Import SqlOrderFacts DictExamples IterkeysFacts.
+
+(* the invariant excludes NULL keys *)
+Theorem C03_invariant_no_null_key : forall s, Sinv s -> forall r, In r (rows s) -> rkey r <> SNull.
+Proof. exact sinv_no_null_key. Qed.
+Print Assumptions C03_invariant_no_null_key.
+
+Theorem C03_reachable_no_null_key : forall c h,
+  (forall x, In x h -> is_push (fst (fst x)) = false) ->
+  forall r, In r (rows (run c init_st h)) -> rkey r <> SNull.
+Proof. exact reachable_no_null_key. Qed.
+Print Assumptions C03_reachable_no_null_key.
 
 Theorem C03_iterkeys_is_key_order : forall s reverse,
-  Sinv s -> forallb (fun r => key_nonnull (rkey r)) (rows s) = true ->
+  Sinv s ->
   op_iterkeys s reverse = (s, RKeys (keys_of (sql_order reverse [ord_sql rkey; ord_bool rraw] (rows s)))).
 Proof. exact iterkeys_sinv. Qed.
 Print Assumptions C03_iterkeys_is_key_order.
+
+(* every state reachable from the empty cache: any configuration, any history of calls other than push *)
+Theorem C03_iterkeys_is_key_order_reachable : forall c h reverse,
+  (forall x, In x h -> is_push (fst (fst x)) = false) ->
+  let s := run c init_st h in
+  op_iterkeys s reverse = (s, RKeys (keys_of (sql_order reverse [ord_sql rkey; ord_bool rraw] (rows s)))).
+Proof. exact iterkeys_reachable. Qed.
+Print Assumptions C03_iterkeys_is_key_order_reachable.
+
+(* general form: any table with pairwise distinct rows, (key, raw) unique under the SQLite comparison, no REAL NaN and no
+   NULL key (e.g. a directory not written through this API) *)
+Theorem C03_iterkeys_is_key_order_table : forall s reverse,
+  NoDup (rows s) /\ keys_unique (rows s) /\ (forall r, In r (rows s) -> sv_wf (rkey r) = true) /\
+  (forall r, In r (rows s) -> rkey r <> SNull) ->
+  op_iterkeys s reverse = (s, RKeys (keys_of (sql_order reverse [ord_sql rkey; ord_bool rraw] (rows s)))).
+Proof. exact iterkeys_all_rows_table. Qed.
+Print Assumptions C03_iterkeys_is_key_order_table.
 
 Theorem C03_iterkeys_changes_nothing : forall s reverse, fst (op_iterkeys s reverse) = s.
 Proof. exact iterkeys_state. Qed.
@@ -169,18 +199,46 @@ Print Assumptions C03_iterkeys_changes_nothing.
 
 (* the hypotheses are satisfiable: a reachable 7-row state with int, float, text, bytes and pickled keys *)
 Theorem C03_iterkeys_hyps_satisfiable :
+  (forall x, In x iterkeys_demo_hist -> is_push (fst (fst x)) = false) /\
   Sinv iterkeys_demo_st /\ Winv iterkeys_demo_st /\
+  (NoDup (rows iterkeys_demo_st) /\ keys_unique (rows iterkeys_demo_st) /\
+   (forall r, In r (rows iterkeys_demo_st) -> sv_wf (rkey r) = true) /\
+   (forall r, In r (rows iterkeys_demo_st) -> rkey r <> SNull)) /\
   forallb (fun r => key_nonnull (rkey r)) (rows iterkeys_demo_st) = true /\
   length (rows iterkeys_demo_st) = 7%nat.
 Proof. exact iterkeys_demo_hyps. Qed.
 Print Assumptions C03_iterkeys_hyps_satisfiable.
 
-(* FULL statement (no hypothesis on NULL keys) is refuted: float('nan') keys are stored as NULL, each set
-   inserts a new row, and iterkeys stops at / never reaches the NULL rows.  Witness: c[nan]=1; c[7]=2; c[nan]=3;
-   list(c.iterkeys()) == [None], list(c.iterkeys(reverse=True)) == [7], len(c) == 3 (finding C03-F1). *)
-Theorem C03_iterkeys_null_key_refuted :
-  exists h, (forall x, In x h -> is_push (fst (fst x)) = false) /\
-    let s := run demo_cfg init_st h in
-    Sinv s /\ forall reverse, snd (op_iterkeys s reverse) <> RKeys (keys_of (sql_order reverse [ord_sql rkey; ord_bool rraw] (rows s))).
-Proof. exact iterkeys_all_rows_refuted. Qed.
-Print Assumptions C03_iterkeys_null_key_refuted.
+(* The former finding C03-F1 (C03_iterkeys_null_key_refuted: float('nan') keys were stored as NULL, each set inserted a
+   new row, iterkeys stopped at / never reached the NULL rows).  On the repaired Disk.put (the generated decision tree)
+   the same witness history c[nan]=1; c[7]=2; c[nan]=3 gives TWO rows -- the NaN key is the pickle of NaN, raw = 0, the
+   third call replaces the first entry -- iterkeys lists both keys in either direction, and the NaN entry is reached by
+   get / in / delete and decoded back to NaN. *)
+Theorem C03_iterkeys_nan_key_complete :
+  (forall x, In x iterkeys_nan_hist -> is_push (fst (fst x)) = false) /\
+  let s := run demo_cfg init_st iterkeys_nan_hist in
+  Sinv s /\ keys_of (rows s) = [(SBlob (pkk demo_codec (VFloat FNaN)), false); (SInt 7, true)] /\
+  snd (op_iterkeys s false) = RKeys [(SInt 7, true); (SBlob (pkk demo_codec (VFloat FNaN)), false)] /\
+  snd (op_iterkeys s true) = RKeys [(SBlob (pkk demo_codec (VFloat FNaN)), false); (SInt 7, true)] /\
+  (forall reverse, snd (op_iterkeys s reverse) = RKeys (keys_of (sql_order reverse [ord_sql rkey; ord_bool rraw] (rows s)))) /\
+  snd (op_get demo_cfg s (VFloat FNaN) false 3) = RVal (FVal (VInt 3)) None SNull /\
+  snd (op_contains demo_cfg s (VFloat FNaN) 3) = RBool true /\
+  get demo_codec (SBlob (pkk demo_codec (VFloat FNaN))) false = Some (VFloat FNaN) /\
+  keys_of (rows (fst (op_delete demo_cfg s (VFloat FNaN) false 3))) = [(SInt 7, true)].
+Proof. exact iterkeys_nan_key_complete. Qed.
+Print Assumptions C03_iterkeys_nan_key_complete.
+
+(* The no-NULL clause of the table-level statement cannot be dropped: on the table the RELEASED put left behind for that
+   history (keys NULL, 7, NULL: C18_released_put_nan_null) iterkeys lists [NULL] ascending and [7] descending.  No state
+   reachable through the repaired API holds such a row (C03_reachable_no_null_key); a NULL database key addresses no row. *)
+Theorem C03_iterkeys_null_key_table_incomplete :
+  let s := set_rows init_st null_key_table 3 0 in
+  NoDup (rows s) /\ keys_unique (rows s) /\ (forall r, In r (rows s) -> sv_wf (rkey r) = true) /\
+  snd (op_iterkeys s false) = RKeys [(SNull, true)] /\
+  snd (op_iterkeys s true) = RKeys [(SInt 7, true)].
+Proof. exact iterkeys_null_key_table_incomplete. Qed.
+Print Assumptions C03_iterkeys_null_key_table_incomplete.
+
+Theorem C03_null_key_matches_nothing : forall z r, key_match SNull z r = false.
+Proof. exact null_key_matches_nothing. Qed.
+Print Assumptions C03_null_key_matches_nothing.
